@@ -4,12 +4,19 @@
 // (one record of booleans per runner).  props/C07.v proves `all_ok RunnerShape.shapes = true`
 // by vm_compute, so a refactoring that leaves the pattern breaks that obligation.
 //
-//	started_first   Run's first statement (logger-only statements aside) is `done := r.lc.Started()`
-//	defer_done      the statement right after it is `defer done()`  (so every exit path runs done)
-//	stop_is_lc_stop Stop's body (logger-only statements aside) is exactly `r.lc.Stop()`
-//	stopch_in_select Run contains a select with a `case <-r.lc.StopCh():` clause
+// "lc" below stands for the Runner field whose declared type is *lifecycle.StartStop, whatever
+// its name; local variable names, logger names and the split of Run/Stop into unexported helper
+// methods of Runner are irrelevant (helpers are inlined up to depth 3), so that a behaviour-
+// preserving refactoring does not change the extracted facts.
+//
+//	started_first   Run reaches `d := r.lc.Started()` before any statement that could leave Run,
+//	                block on a channel, spawn a goroutine, loop, defer or touch lc
+//	                (log-only statements and straight-line statements are allowed before it)
+//	defer_done      the next statement (log-only ones aside) is `defer d()`  (every exit path runs it)
+//	stop_is_lc_stop Stop's body (log-only statements aside, helpers inlined) is exactly `r.lc.Stop()`
+//	stopch_in_select Run (helpers included) contains a select with a `case <-r.lc.StopCh():` clause
 //	lc_only_so      the package's non-test files use the lc field nowhere else
-//	                (exactly one Started, one Stop, >=1 StopCh inside Run, nothing more)
+//	                (exactly one Started call, one Stop call, >=1 StopCh call, nothing more)
 //
 // usage: c07shape -repo /repo [-o coq/gen/RunnerShape.v]     (prints the file to stdout without -o)
 package main
@@ -38,7 +45,11 @@ var runners = []struct{ name, dir string }{
 	{"httpcluster", "runnables/httpcluster"},
 }
 
-// isLcCall reports whether e is `<recv>.lc.<method>()` with no arguments.
+// lcField is the name of the Runner field of type *lifecycle.StartStop in the package being
+// analysed (set by analyse; "" = not found).
+var lcField string
+
+// isLcCall reports whether e is `<recv>.<lcField>.<method>()` with no arguments.
 func isLcCall(e ast.Expr, method string) bool {
 	c, ok := e.(*ast.CallExpr)
 	if !ok || len(c.Args) != 0 {
@@ -49,28 +60,34 @@ func isLcCall(e ast.Expr, method string) bool {
 		return false
 	}
 	in, ok := sel.X.(*ast.SelectorExpr)
-	if !ok || in.Sel.Name != "lc" {
+	if !ok || lcField == "" || in.Sel.Name != lcField {
 		return false
 	}
 	_, ok = in.X.(*ast.Ident)
 	return ok
 }
 
-// rootIsLogger: the expression is a call chain rooted at `logger` or `<recv>.logger`.
+func logName(n string) bool {
+	n = strings.ToLower(n)
+	return strings.Contains(n, "log") || n == "l" || n == "lg"
+}
+
+// rootIsLogger: the expression is a call chain rooted at an identifier or a receiver field whose
+// name says it is a logger (`logger`, `log`, `r.logger`, `r.log` ...).
 func rootIsLogger(e ast.Expr) bool {
 	for {
 		switch x := e.(type) {
 		case *ast.CallExpr:
 			e = x.Fun
 		case *ast.SelectorExpr:
-			if x.Sel.Name == "logger" {
+			if logName(x.Sel.Name) {
 				if _, ok := x.X.(*ast.Ident); ok {
 					return true
 				}
 			}
 			e = x.X
 		case *ast.Ident:
-			return x.Name == "logger"
+			return logName(x.Name)
 		default:
 			return false
 		}
@@ -84,7 +101,7 @@ func loggerOnly(s ast.Stmt) bool {
 		return rootIsLogger(x.X)
 	case *ast.AssignStmt:
 		if len(x.Lhs) == 1 && len(x.Rhs) == 1 {
-			if id, ok := x.Lhs[0].(*ast.Ident); ok && id.Name == "logger" {
+			if id, ok := x.Lhs[0].(*ast.Ident); ok && logName(id.Name) {
 				return rootIsLogger(x.Rhs[0])
 			}
 		}
@@ -92,26 +109,177 @@ func loggerOnly(s ast.Stmt) bool {
 	return false
 }
 
-func method(files []*ast.File, name string) *ast.FuncDecl {
+func recvTypeName(fd *ast.FuncDecl) string {
+	if fd.Recv == nil || len(fd.Recv.List) != 1 {
+		return ""
+	}
+	t := fd.Recv.List[0].Type
+	if st, ok := t.(*ast.StarExpr); ok {
+		t = st.X
+	}
+	if ix, ok := t.(*ast.IndexExpr); ok { // Runner[T]
+		t = ix.X
+	}
+	if ix, ok := t.(*ast.IndexListExpr); ok {
+		t = ix.X
+	}
+	if id, ok := t.(*ast.Ident); ok {
+		return id.Name
+	}
+	return ""
+}
+
+// methods of Runner, by name
+func runnerMethods(files []*ast.File) map[string]*ast.FuncDecl {
+	m := map[string]*ast.FuncDecl{}
 	for _, f := range files {
 		for _, d := range f.Decls {
-			fd, ok := d.(*ast.FuncDecl)
-			if !ok || fd.Recv == nil || fd.Name.Name != name || fd.Body == nil || len(fd.Recv.List) != 1 {
-				continue
-			}
-			t := fd.Recv.List[0].Type
-			if st, ok := t.(*ast.StarExpr); ok {
-				t = st.X
-			}
-			if ix, ok := t.(*ast.IndexExpr); ok { // Runner[T]
-				t = ix.X
-			}
-			if id, ok := t.(*ast.Ident); ok && id.Name == "Runner" {
-				return fd
+			if fd, ok := d.(*ast.FuncDecl); ok && fd.Body != nil && recvTypeName(fd) == "Runner" {
+				m[fd.Name.Name] = fd
 			}
 		}
 	}
-	return nil
+	return m
+}
+
+// findLcField: the field of `type Runner struct` declared as *<alias>.StartStop where <alias> is the
+// file's local name for an import path ending in /supervisor/lifecycle.
+func findLcField(files []*ast.File) (string, int) {
+	name, n := "", 0
+	for _, f := range files {
+		alias := ""
+		for _, im := range f.Imports {
+			if strings.HasSuffix(strings.Trim(im.Path.Value, "\""), "/supervisor/lifecycle") {
+				alias = "lifecycle"
+				if im.Name != nil {
+					alias = im.Name.Name
+				}
+			}
+		}
+		if alias == "" {
+			continue
+		}
+		for _, d := range f.Decls {
+			gd, ok := d.(*ast.GenDecl)
+			if !ok {
+				continue
+			}
+			for _, sp := range gd.Specs {
+				ts, ok := sp.(*ast.TypeSpec)
+				if !ok || ts.Name.Name != "Runner" {
+					continue
+				}
+				st, ok := ts.Type.(*ast.StructType)
+				if !ok {
+					continue
+				}
+				for _, fl := range st.Fields.List {
+					t := fl.Type
+					if se, ok := t.(*ast.StarExpr); ok {
+						t = se.X
+					}
+					sel, ok := t.(*ast.SelectorExpr)
+					if !ok || sel.Sel.Name != "StartStop" {
+						continue
+					}
+					if id, ok := sel.X.(*ast.Ident); ok && id.Name == alias {
+						for _, nm := range fl.Names {
+							name = nm.Name
+							n++
+						}
+					}
+				}
+			}
+		}
+	}
+	return name, n
+}
+
+// helperCall: s is `r.<m>(...)` as a statement, m an (unexported or exported) method of Runner.
+func helperCall(s ast.Stmt, ms map[string]*ast.FuncDecl) *ast.FuncDecl {
+	es, ok := s.(*ast.ExprStmt)
+	if !ok {
+		return nil
+	}
+	c, ok := es.X.(*ast.CallExpr)
+	if !ok {
+		return nil
+	}
+	sel, ok := c.Fun.(*ast.SelectorExpr)
+	if !ok {
+		return nil
+	}
+	if _, ok := sel.X.(*ast.Ident); !ok {
+		return nil
+	}
+	return ms[sel.Sel.Name]
+}
+
+// flat: the statements of a body with log-only statements dropped and statement-level calls of
+// Runner helper methods replaced by the helper's (flattened) body.
+func flat(list []ast.Stmt, ms map[string]*ast.FuncDecl, depth int) []ast.Stmt {
+	var out []ast.Stmt
+	for _, s := range list {
+		if loggerOnly(s) {
+			continue
+		}
+		if h := helperCall(s, ms); h != nil && depth > 0 {
+			out = append(out, flat(h.Body.List, ms, depth-1)...)
+			continue
+		}
+		out = append(out, s)
+	}
+	return out
+}
+
+// mayLeaveOrBlock: the statement contains something that must not precede Started(): a way out of
+// Run, a channel operation, a goroutine, a loop, a defer, or a use of the lifecycle field.
+func mayLeaveOrBlock(s ast.Stmt) bool {
+	bad := false
+	ast.Inspect(s, func(n ast.Node) bool {
+		switch x := n.(type) {
+		case *ast.ReturnStmt, *ast.GoStmt, *ast.SelectStmt, *ast.SendStmt, *ast.DeferStmt, *ast.ForStmt,
+			*ast.RangeStmt, *ast.BranchStmt, *ast.FuncLit:
+			bad = true
+		case *ast.UnaryExpr:
+			if x.Op == token.ARROW {
+				bad = true
+			}
+		case *ast.SelectorExpr:
+			if lcField != "" && x.Sel.Name == lcField {
+				bad = true
+			}
+		case *ast.CallExpr:
+			if id, ok := x.Fun.(*ast.Ident); ok && id.Name == "panic" {
+				bad = true
+			}
+		}
+		return !bad
+	})
+	return bad
+}
+
+// reachable bodies: Run plus the Runner methods it calls, transitively (depth 3)
+func reachableBodies(fd *ast.FuncDecl, ms map[string]*ast.FuncDecl, depth int, seen map[string]bool, out *[]*ast.BlockStmt) {
+	*out = append(*out, fd.Body)
+	if depth == 0 {
+		return
+	}
+	ast.Inspect(fd.Body, func(n ast.Node) bool {
+		c, ok := n.(*ast.CallExpr)
+		if !ok {
+			return true
+		}
+		if sel, ok := c.Fun.(*ast.SelectorExpr); ok {
+			if _, ok := sel.X.(*ast.Ident); ok {
+				if h := ms[sel.Sel.Name]; h != nil && !seen[sel.Sel.Name] {
+					seen[sel.Sel.Name] = true
+					reachableBodies(h, ms, depth-1, seen, out)
+				}
+			}
+		}
+		return true
+	})
 }
 
 func analyse(repo, name, dir string) shape {
@@ -131,69 +299,79 @@ func analyse(repo, name, dir string) shape {
 		}
 		files = append(files, f)
 	}
-	run, stop := method(files, "Run"), method(files, "Stop")
+	var nf int
+	lcField, nf = findLcField(files)
+	if nf != 1 {
+		sh.detail = append(sh.detail, fmt.Sprintf("Runner has %d fields of type *lifecycle.StartStop (want 1)", nf))
+		lcField = ""
+		return sh
+	}
+	ms := runnerMethods(files)
+	run, stop := ms["Run"], ms["Stop"]
 	if run == nil || stop == nil {
 		sh.detail = append(sh.detail, "Run or Stop method of Runner not found")
 		return sh
 	}
-	// Run: [logger-only]* ; done := r.lc.Started() ; defer done() ; ...
+	// Run: [statements that cannot leave/block]* ; d := r.lc.Started() ; [log-only]* ; defer d() ; ...
 	body := run.Body.List
-	i := 0
-	for i < len(body) && loggerOnly(body[i]) {
+	i, doneName := 0, ""
+	for i < len(body) {
+		if as, ok := body[i].(*ast.AssignStmt); ok && as.Tok == token.DEFINE && len(as.Lhs) == 1 && len(as.Rhs) == 1 {
+			if id, ok := as.Lhs[0].(*ast.Ident); ok && isLcCall(as.Rhs[0], "Started") {
+				sh.startedFirst, doneName = true, id.Name
+				break
+			}
+		}
+		if !loggerOnly(body[i]) && mayLeaveOrBlock(body[i]) {
+			break
+		}
 		i++
 	}
-	if i < len(body) {
-		if as, ok := body[i].(*ast.AssignStmt); ok && as.Tok == token.DEFINE && len(as.Lhs) == 1 && len(as.Rhs) == 1 {
-			if id, ok := as.Lhs[0].(*ast.Ident); ok && id.Name == "done" && isLcCall(as.Rhs[0], "Started") {
-				sh.startedFirst = true
+	if sh.startedFirst {
+		j := i + 1
+		for j < len(body) && loggerOnly(body[j]) {
+			j++
+		}
+		if j < len(body) {
+			if df, ok := body[j].(*ast.DeferStmt); ok && len(df.Call.Args) == 0 {
+				if id, ok := df.Call.Fun.(*ast.Ident); ok && id.Name == doneName {
+					sh.deferDone = true
+				}
 			}
 		}
 	}
-	if sh.startedFirst && i+1 < len(body) {
-		if df, ok := body[i+1].(*ast.DeferStmt); ok && len(df.Call.Args) == 0 {
-			if id, ok := df.Call.Fun.(*ast.Ident); ok && id.Name == "done" {
-				sh.deferDone = true
-			}
-		}
-	}
-	// Stop: [logger-only]* ; r.lc.Stop() ; [logger-only]*
-	var rest []ast.Stmt
-	for _, s := range stop.Body.List {
-		if !loggerOnly(s) {
-			rest = append(rest, s)
-		}
-	}
+	// Stop: [log-only]* ; r.lc.Stop() ; [log-only]*   (helper methods inlined)
+	rest := flat(stop.Body.List, ms, 3)
 	if len(rest) == 1 {
 		if es, ok := rest[0].(*ast.ExprStmt); ok && isLcCall(es.X, "Stop") {
 			sh.stopIsLcStop = true
 		}
 	}
-	// a select in Run with `case <-r.lc.StopCh():`
-	ast.Inspect(run.Body, func(n ast.Node) bool {
-		sel, ok := n.(*ast.SelectStmt)
-		if !ok {
-			return true
-		}
-		for _, c := range sel.Body.List {
-			cc := c.(*ast.CommClause)
-			if es, ok := cc.Comm.(*ast.ExprStmt); ok {
-				if u, ok := es.X.(*ast.UnaryExpr); ok && u.Op == token.ARROW && isLcCall(u.X, "StopCh") {
-					sh.stopChInSelect = true
+	// a select in Run (or in a Runner method Run calls) with `case <-r.lc.StopCh():`
+	var bodies []*ast.BlockStmt
+	reachableBodies(run, ms, 3, map[string]bool{"Run": true}, &bodies)
+	for _, bd := range bodies {
+		ast.Inspect(bd, func(n ast.Node) bool {
+			sel, ok := n.(*ast.SelectStmt)
+			if !ok {
+				return true
+			}
+			for _, c := range sel.Body.List {
+				cc := c.(*ast.CommClause)
+				if es, ok := cc.Comm.(*ast.ExprStmt); ok {
+					if u, ok := es.X.(*ast.UnaryExpr); ok && u.Op == token.ARROW && isLcCall(u.X, "StopCh") {
+						sh.stopChInSelect = true
+					}
 				}
 			}
-		}
-		return true
-	})
+			return true
+		})
+	}
 	// every use of the lc field in the package
 	uses := map[string]int{}
 	other := 0
 	for _, f := range files {
-		var inFn string
 		for _, d := range f.Decls {
-			inFn = ""
-			if fd, ok := d.(*ast.FuncDecl); ok {
-				inFn = fd.Name.Name
-			}
 			parent := map[ast.Node]ast.Node{}
 			var stack []ast.Node
 			ast.Inspect(d, func(n ast.Node) bool {
@@ -209,14 +387,14 @@ func analyse(repo, name, dir string) shape {
 			})
 			ast.Inspect(d, func(n ast.Node) bool {
 				sel, ok := n.(*ast.SelectorExpr)
-				if !ok || sel.Sel.Name != "lc" {
+				if !ok || sel.Sel.Name != lcField {
 					return true
 				}
 				// must be the X of a method selector that is called
 				ok2 := false
 				if p, ok := parent[sel].(*ast.SelectorExpr); ok && p.X == sel {
 					if c, ok := parent[p].(*ast.CallExpr); ok && c.Fun == p {
-						uses[inFn+"."+p.Sel.Name]++
+						uses[p.Sel.Name]++
 						ok2 = true
 					}
 				}
@@ -227,8 +405,7 @@ func analyse(repo, name, dir string) shape {
 			})
 		}
 	}
-	sh.lcOnlySo = other == 0 && uses["Run.Started"] == 1 && uses["Stop.Stop"] == 1 && uses["Run.StopCh"] >= 1 &&
-		len(uses) == 3
+	sh.lcOnlySo = other == 0 && uses["Started"] == 1 && uses["Stop"] == 1 && uses["StopCh"] >= 1 && len(uses) == 3
 	var ks []string
 	for k, v := range uses {
 		ks = append(ks, fmt.Sprintf("%s x%d", k, v))
